@@ -6,7 +6,7 @@ import random
 import re
 import time
 
-from . import c04_e2, c04_e3, common, e2, e3
+from . import c04_e2, c04_e3, common, e3
 
 PID = "C04"
 PROPS_FILE = "props/C04.v"
@@ -208,7 +208,7 @@ def correspondence(ctx):
         pre = [t for t in trace[:marks["q"]] if t[0][0] != "dispatch_error"]
         ops = c04_e2.cq_xops(pre)
         qterm = f"(run_xops {ops} (init_st 3))"
-        rehash = e2.cq_hs(_rehash_of_dump(q))
+        rehash = c04_e2.cq_hs(_rehash_of_dump(q))
         checks.append(f"quiescent_success_b {qterm}")
         names.append((i, "bridge", None))
         checks.append(f"match dispatchable {qterm} with [] => true | _ => false end")
